@@ -191,6 +191,26 @@ m('c20-clear-in-place', 'C20', Y, "        if overwrite:\n            self.rules
 m('c20-shared-check-mutated', 'C20', Y, "                self.rules[default.name] = check\n", "                self.rules[default.name] = check\n                if isinstance(check, _checks.RoleCheck) and check.match == 'z':\n                    check.match = 'zz'\n                    check.match = 'z'\n",
   'a check object shared by old and new stores is transiently mutated')
 
+# ---- second round (replacements for mutants the repository suite notices) ---------
+m('c11-any-rule-ref-is-alias', 'C11', Y, "                str(file_rule.check) != 'rule:%s' % default.name and\n",
+  "                not str(file_rule.check).startswith('rule:') and\n", 'any old-name override that is a rule: reference is treated as the alias')
+m('c12-registered-copy-accumulates', 'C12', Y, "                self.rules[default.name] = check\n",
+  "                self.rules[default.name] = check\n                default._check = check\n", 'the registered copy keeps the merged check: every rebuild ORs the old default in again')
+m('c13-undefined-and-only', 'C13', Y, "        rules = getattr(check, 'rules', None)\n        if rules:\n            for rule in rules:\n                if self._undefined_check(rule):\n                    return True",
+  "        rules = getattr(check, 'rules', None)\n        if rules and len(rules) < 3:\n            for rule in rules:\n                if self._undefined_check(rule):\n                    return True", 'undefined references inside and/or groups of three or more operands are missed')
+m('c13-self-loop', 'C13', Y, "            if check.match in seen:\n                # Cycle found\n                return True",
+  "            if check.match in seen and len(seen) > 1:\n                # Cycle found\n                return True", 'a direct self-reference is not recognised as a cycle')
+m('c20-file-rules-first', 'C20', Y, "            rules = Rules.load(data, self.default_rule)\n            self.set_rules(rules, overwrite=overwrite, use_conf=True)\n            rules_changed = True\n            self._record_file_rules(data, overwrite)",
+  "            rules = Rules.load(data, self.default_rule)\n            self._record_file_rules(data, overwrite)\n            self.set_rules(rules, overwrite=overwrite, use_conf=True)\n            rules_changed = True", 'file_rules published before the rule store (exploratory: may only shift the known windows)')
+m('c20-iterate-copy', 'C20', Y, "        for name, check in self.rules.items():\n            if not self.skip_undefined_check and self._undefined_check(check):",
+  "        for name, check in list(self.rules.items()):\n            if not self.skip_undefined_check and self._undefined_check(check):", 'IMPROVEMENT (removes the known reload-iteration-race): the check must stay silent')
+m('c05-fanout-first-three', 'C05', C, "            for val in test_value:\n                if self._find_in_dict(val, path_segments, match):\n                    return True\n            return False",
+  "            for val in test_value[:2]:\n                if self._find_in_dict(val, path_segments, match):\n                    return True\n            return False", 'only the first two list elements are examined')
+m('c06-bypass-default', 'C06', C, "                rule=enforcer.rules[self.match],\n                target=target,", "                rule=dict.__getitem__(enforcer.rules, self.match) if self.match.startswith('g') else enforcer.rules[self.match],\n                target=target,",
+  "undefined references whose name starts with 'g' never fall back to the default rule")
+m('c10-dir-mtime-ignored', 'C10', Y, "            files = [path] + [os.path.join(path, file) for file in\n                              os.listdir(path)]", "            files = [os.path.join(path, file) for file in\n                     os.listdir(path)] or [path]",
+  'the directory\'s own mtime is ignored: deleting a file from a policy directory goes unnoticed')
+
 
 # Mutants that turned out to be semantically equivalent (the property still holds on them): a check that flagged one of
 # these would be raising a false alarm, so "not flagged" is the correct outcome.
@@ -202,6 +222,7 @@ EQUIVALENT = {
     'c11-old-over-new': 'the dropped test is unreachable: load_rules never merges a name that is already in the rule store',
     'c18-revert-d8': 'without the conversion the list is written as a JSON/YAML list, which loads back as the same rule',
     'c12-register-no-copy': 'registering without a copy is invisible unless something mutates the object',
+    'c20-iterate-copy': 'an improvement: removes one known finding; exit must stay 0',
 }
 for _m in M:
     if _m['id'] in EQUIVALENT:
